@@ -51,6 +51,7 @@ def get_world():
 def make_run(prop, verif_seed, idx, tier):
     m = machine_for(prop)
     rng = core.rng_for(verif_seed, prop, m.MACHINE, idx)
+    rng.run_index, rng.verif_seed = idx, verif_seed     # for machines that enumerate over consecutive indices
     parts = m.generate(prop, rng, tier)
     run = {'property': prop, 'machine': m.MACHINE, 'seed': verif_seed, 'run_index': idx}
     run.update(parts)
